@@ -28,8 +28,8 @@ TRUSTED = [
 ASSUMPTIONS = ["pixel coordinates are small non-negative integers (< 2^15), so integer products are exact in float64",
                "index lists hold distinct positive labels, at least one of them present in the image"]
 EXHAUSTIVE = {"quick": False, "thorough": False}
-CASE_TIMEOUT = 12
-FN_TIMEOUT = 3          # seconds per function call inside one case (a hang is a failure of the property)
+CASE_TIMEOUT = 30
+FN_TIMEOUT = 8          # seconds per function call inside one case (a hang is a failure of the property)
 _TIMEOUTS = [0]
 TOL_MEC = 1e-7
 TOL_FERET = 1e-9
